@@ -224,6 +224,27 @@ def reobsJustified (cfg : Cfg) (topic : Bytes) (rc : Option Receipt) (bt : Optio
         | none => none
   | _, _ => none.toList
 
+/-- a rendered message without its timestamp field (`tx,ts,nonce,seq,…`) -/
+def dropTs (m : String) : String :=
+  match m.splitOn "," with
+  | tx :: _ :: rest => ",".intercalate (tx :: rest)
+  | _ => m
+
+/-- the timestamp field of a rendered message -/
+def tsOf (m : String) : String := ((m.splitOn ",")[1]?).getD "?"
+
+/-- `m` is one of the receipt's messages in every field except the timestamp, which is NOT the time of the block the receipt
+points to (`bt`; any value if the block-time lookup gave nothing) -/
+def tsOnlyDiffers (cfg : Cfg) (rc : Option Receipt) (bt : Option Nat) (m : String) : Bool :=
+  match rc with
+  | some r =>
+    r.logs.any fun l => match l with
+      | some l => match l.parse with
+        | some ev => dropTs (showMsg (mkMsg cfg.chainId ev (bt.getD 0))) == dropTs m && some (tsOf m) != bt.map toString
+        | none => false
+      | none => false
+  | none => false
+
 /-- why a re-observed message that is not justified was not: the most specific clause -/
 def reobsWhy (cfg : Cfg) (topic : Bytes) (rc : Option Receipt) (bt : Option Nat) (seen : Nat) (m : String) : String :=
   match rc, bt with
@@ -234,7 +255,7 @@ def reobsWhy (cfg : Cfg) (topic : Bytes) (rc : Option Receipt) (bt : Option Nat)
         | none => none
       | none => none
     match cands with
-    | [] => "forwarded-unknown"
+    | [] => if tsOnlyDiffers cfg rc bt m then "forwarded-timestamp-not-block-time" else "forwarded-unknown"
     | (l, ev) :: _ =>
       if l.addr ≠ cfg.contract then "reobs-foreign-contract"
       else if l.topics.head? ≠ some topic then "reobs-wrong-topic"
@@ -242,6 +263,7 @@ def reobsWhy (cfg : Cfg) (topic : Bytes) (rc : Option Receipt) (bt : Option Nat)
       else match r.bn with
         | some bn => if bn + specConf cfg ev.cl ≤ seen then "forwarded-twice" else "reobs-not-final"
         | none => "reobs-not-final"
+  | some _, none => if tsOnlyDiffers cfg rc bt m then "forwarded-timestamp-not-block-time" else "forwarded-unknown"
   | _, _ => "forwarded-unknown"
 
 /-- the rendered message `m` has the transaction, sequence and emitter of `x` (but may differ elsewhere) -/
@@ -279,7 +301,8 @@ def rreobsWhy (cfg : Cfg) (topic : Bytes) (hasA : Bool) (rcA : Option Receipt) (
   if wa = "reobs-not-final" then
     -- deep enough only under a head seen after the node had changed branch, when the receipt no longer pointed to that block
     if reobsWhy cfg topic rcA btA seenB m = "forwarded-twice" && !sameBlock rcA rcB then "reobs-receipt-moved" else "reobs-not-final"
-  else if wa ≠ "forwarded-unknown" then wa else wb
+  else if wa ≠ "forwarded-unknown" ∧ wa ≠ "forwarded-timestamp-not-block-time" then wa
+  else if wb ≠ "forwarded-unknown" then wb else wa
 
 structure SpecIn where
   heads : List Nat
@@ -372,7 +395,13 @@ def specEval (c : CaseSt) (op : String) (topic : Bytes) (i : SpecIn) : CaseSt :=
             match i.whyAlt with
             | some f => return f m
             | none => return "forwarded-unknown"
-      c := c.addSpec clause s!"{op}#{c.lines} forwarded message {m} is not justified{i.note}"
+      let tsNote : String :=
+        if clause = "forwarded-timestamp-not-block-time" then
+          match i.reobs with
+          | some (rc, bt) => s!": it carries timestamp {tsOf m}, but the receipt of its transaction points to block {(rc.map fun r => toHex r.bh).getD "?"} (height {(rc.bind (·.bn)).map toString}), whose time the node gives as {bt.map toString} — every other guardian signs the body with that block's time"
+          | none => ": it is the receipt's message in every field but the timestamp, which is the time of neither block the receipt pointed to during the request"
+        else ""
+      c := c.addSpec clause s!"{op}#{c.lines} forwarded message {m} is not justified{tsNote}{i.note}"
   return c
 
 /-! ## ops -/
